@@ -56,6 +56,26 @@ def sweep_cases(kmax):
     return out
 
 
+def arith_const_cases(kmax, avals):
+    """Parametric family: multiplication, division and remainder by every small constant (strength reduction, magic-number
+    division, lea forms), 64- and 32-bit, signed and unsigned, for a few dividends incl. negative ones."""
+    R, I, M = progs.op_reg, progs.op_imm, progs.op_mem
+    ops = ["mul", "div", "mod", "udiv", "umod", "muls", "divs", "mods", "udivs", "umods"]
+    out = []
+    for k in list(range(1, kmax + 1)) + [-1, -2, -3, -7, -8, -100]:
+        for a in avals:
+            insns = [progs.ins("mov", R(2), M("i64", 0, 1))]
+            for j, o in enumerate(ops):
+                if k < 0 and a == -(1 << 63) and o in ("div", "mod"):
+                    continue
+                insns.append(progs.ins(o, R(3), R(2), I(k)))
+                insns.append(progs.ins("ext32" if o.endswith("s") else "mov", R(3), R(3)))      # only the low half of a 32-bit result is defined
+                insns.append(progs.ins("mov", M("i64", 192 + 8 * j, 1), R(3)))
+            insns.append({"op": "ret", "s": [R(3)]})
+            out.append(progs.family_case(insns, 4, (a & ((1 << 64) - 1)).to_bytes(8, "little")))
+    return out
+
+
 def run(tier, cases=None, only_engines=None):
     ck = Check(PROP, tier, "model_checking")
     nprog = 720 if tier == "quick" else 6000
@@ -71,7 +91,9 @@ def run(tier, cases=None, only_engines=None):
     else:
         ck.setc("states", len(cases)); ck.setc("transitions", len(cases))
     if only_engines is None and tier in ("quick", "thorough") and not os.environ.get("C01_NO_SWEEP") and len(cases) > 100:
-        fam, rf = progs.run_family(sweep_cases(200 if tier == "quick" else 600))
+        fam, rf = progs.run_family(sweep_cases(200 if tier == "quick" else 600)
+                                   + arith_const_cases(130 if tier == "quick" else 1100,
+                                                       [1000003, -1000003] if tier == "quick" else [1000003, -1000003, 0x7fffffff, -(1 << 63), 0x123456789]))
         cases = cases + fam
         ck.setc("family_cases", len(fam))
     st = collections.Counter(c["status"] for c in cases)
